@@ -338,7 +338,12 @@ func drawDup(t *rapid.T) dupCase {
 	pi := 0
 	for i := 0; i < nseg; i++ {
 		plain.WriteByte('/')
-		switch rapid.IntRange(0, 4).Draw(t, "seg") {
+		switch rapid.IntRange(0, 5).Draw(t, "seg") {
+		case 5:
+			// an escaped RESERVED character: the raw character is a different path (RFC 3986 6.2.2.2
+			// only un-escapes unreserved characters), see reservedPairs below
+			pr := rapid.SampledFrom(reservedPairs).Draw(t, "reserved")
+			plain.WriteString(rapid.SampledFrom([]string{"", "pay", "a"}).Draw(t, "pre") + pr[0] + rapid.SampledFrom([]string{"", "b", "1"}).Draw(t, "post"))
 		case 0:
 			fmt.Fprintf(&plain, "{p%d}", pi)
 			pi++
@@ -358,6 +363,13 @@ func drawDup(t *rapid.T) dupCase {
 	p := plain.String()
 	r := respell(t, p)
 	other := p + rapid.SampledFrom([]string{"x", "/x", "%2F", "0"}).Draw(t, "suffix")
+	// a near miss instead of a longer key: one escaped reserved character written raw
+	for _, pr := range reservedPairs {
+		if strings.Contains(p, pr[0]) && rapid.Bool().Draw(t, "nearmiss") {
+			other = strings.Replace(p, pr[0], pr[1], 1)
+			break
+		}
+	}
 	return dupCase{Plain: p, Respelt: r, Other: other}
 }
 
@@ -384,7 +396,13 @@ func checkDup(c dupCase) *vk.Finding {
 	})
 }
 
+// reservedPairs: escaped form and raw form of reserved characters that may appear raw in a path segment.
+var reservedPairs = [][2]string{{"%24", "$"}, {"%26", "&"}, {"%2B", "+"}, {"%3D", "="}, {"%3A", ":"}, {"%40", "@"}, {"%2C", ","}, {"%3B", ";"}, {"%21", "!"}, {"%27", "'"}, {"%28", "("}, {"%29", ")"}, {"%2A", "*"}}
+
 var regressDup = []dupCase{
+	{Plain: "/pay%24", Respelt: "/p%61y%24", Other: "/pay$"},
+	{Plain: "/a%3Ab/{p0}", Respelt: "/a%3ab/{p0}", Other: "/a:b/{p0}"},
+	{Plain: "/x%40y", Respelt: "/%78%40y", Other: "/x@y"},
 	{Plain: "/a", Respelt: "/%61", Other: "/ax"},
 	{Plain: "/a%2Fb", Respelt: "/a%2fb", Other: "/a%2Fbx"},
 	{Plain: "/a/{p0}", Respelt: "/%61/{p0}", Other: "/a/{p0}x"},
